@@ -134,6 +134,25 @@ def refine_frame(ex, st, pre_heap, log, uid0):
         o = z3.Int(f"lo!{next(_uid)}")
         st.assume(smt.forall([o], z3.Implies(alive_pre[o], st.heap["$alive"][o]), [alive_pre[o]]))
         st.assume(smt.forall([o], z3.Implies(alive_pre[o], st.heap["$alive"][o]), [st.heap["$alive"][o]]))
+        # ... and only objects of the classes the body allocates
+        classes = set()
+        for (name, at, hint, fresh_obj, preds, pc) in log:
+            if name != "$alive" or classes is None:
+                continue
+            if isinstance(hint, str):
+                classes.add(hint)
+            elif isinstance(preds, tuple) and preds and preds[0] == "classes":
+                if preds[1] is None:
+                    classes = None
+                else:
+                    classes |= set(preds[1])
+            else:
+                classes = None
+        if classes:
+            from .symexec import cls_of
+            okcls = z3.Or([cls_of(o) == ex.cid(n) for n in sorted(classes)])
+            new_alive = st.heap["$alive"]
+            st.assume(smt.forall([o], z3.Implies(z3.And(new_alive[o], z3.Not(alive_pre[o])), okcls), [new_alive[o]]))
     by_heap = {}
     for (name, at, hint, fresh_obj, preds, pc) in log:
         by_heap.setdefault(name, []).append((at, hint, fresh_obj, preds, pc))
@@ -149,6 +168,8 @@ def refine_frame(ex, st, pre_heap, log, uid0):
                     conds.append(z3.Not(alive_pre[o]))          # allocated by the loop body itself
                 else:
                     conds.append(z3.Not(ex.entry_alive[o]))     # allocated earlier in the current activation
+                continue
+            if isinstance(preds, tuple) and preds and preds[0] == "classes":
                 continue
             if preds is not None:
                 pl, ovar = preds
